@@ -5,9 +5,12 @@ rows = []
 for f in sorted(glob.glob("/verif/seeded/*/meta.json")):
     m = json.load(open(f))
     cr = m["check_result"]
+    stale = m.get("status") == "stale"
     verdict = "MISSED" if not cr["detected"] else ("VIOLATION with failing input" if cr["with_failing_input"] else "VIOLATION no-failing-input-found")
     first = m["needs_to_manifest"].strip().splitlines()
     title = next((l.strip("# ").strip() for l in first if l.strip()), "")[:140]
+    if stale:
+        verdict += " (at " + m["repo_head"] + "; stale at current HEAD: superseded by later fix commits)"
     rows.append((m["id"], m["property"], title, verdict))
 out = ["# Seeded changes and the verdict of the property's check\n",
        "Each change compiles, passes the crate's 62 tests + doctest, and breaks the property (its demo fails with the",
